@@ -11,7 +11,7 @@ pub fn prop() -> Prop {
     Prop {
         id: "C05",
         level: "exploration",
-        rule: "complete enumerations of inputs to the public eval(): (1) all token strings of length <= L over the full token vocabulary (every keyword, operator and delimiter, an identifier, a builtin name, int, float, string, an illegal character, a lone &), joined by one space; (2) all texts of <= n characters over an alphabet with one representative of every lexer character class; (3) every char-boundary truncation and every single-token deletion, duplication, adjacent swap and replacement by every vocabulary token of every corpus program; (4) a directed boundary family (literal lengths, zero divisors and range ends, every arity mismatch up to 4x4, antwoord/stop/volgende at every position of a template, self-referential initialisers, multi-byte indexing at every index, size ladders across the 8- and 16-bit limits). Each input runs in an isolated worker under an address-space limit and a watchdog on an ordinary 8 MiB stack. Non-trivial = the input got past the lexer and parser (it compiled or failed later than parsing); distinct = distinct texts",
+        rule: "complete enumerations of inputs to the public eval(): (1) all token strings of length <= L over the full token vocabulary (every keyword, operator and delimiter, an identifier, a builtin name, int, float, string, an illegal character, a lone &), joined by one space; (2) all texts of <= n characters over an alphabet with one representative of every lexer character class; (3) every char-boundary truncation and every single-token deletion, duplication, adjacent swap and replacement by every vocabulary token of every corpus program; (3b) every ordered pair of characters of a 125-character alphabet (all printable ASCII, tab / newline / carriage return, Unicode representatives of every class) in 13 positions: in a string literal raw and after a backslash, at the end of an unterminated literal, in a comment, in / after a word, a number, a literal, as an operator, in a print format; (4) a directed boundary family (literal lengths, zero divisors and range ends, every arity mismatch up to 4x4, antwoord/stop/volgende at every position of a template, self-referential initialisers, multi-byte indexing at every index, size ladders across the 8- and 16-bit limits). Each input runs in an isolated worker under an address-space limit and a watchdog on an ordinary 8 MiB stack. Non-trivial = the input got past the lexer and parser (it compiled or failed later than parsing); distinct = distinct texts",
         assumptions: &[
             "an instruction-budget exhaustion is accepted only for inputs that spell out a loop or a function (zolang / functie)",
             "long random noise is outside what enumeration reaches; only the stated bounded spaces are covered",
@@ -293,6 +293,32 @@ fn directed(sh: &mut Shard, tier: Tier) {
         "stel a = [1]; a[0] = a; a == a",
     ] {
         case(sh, "directed-cycle", p, b);
+    }
+    // character sweep: every ordered pair of characters of the full alphabet (all printable ASCII, tab / newline /
+    // carriage return, Unicode representatives of every class) in each lexical and syntactic position
+    {
+        let alpha = super::c08::full_alphabet();
+        for &c1 in &alpha {
+            for &c2 in &alpha {
+                for text in [
+                    format!("\"{c1}{c2}\""),
+                    format!("\"\\{c1}{c2}\""),
+                    format!("\"a{c1}\\{c2}"),
+                    format!("lengte(\"{c1}\\{c2}x\")"),
+                    format!("//{c1}{c2}\n7"),
+                    format!("x{c1}{c2}"),
+                    format!("1{c1}{c2}"),
+                    format!("{c1}{c2}"),
+                    format!("{c1}{c2}1"),
+                    format!("[1, 2]{c1}{c2}"),
+                    format!("\"s\"{c1}{c2}"),
+                    format!("stel a = 1; a {c1}{c2} 2"),
+                    format!("print(\"{{}}{c1}{c2}{{}}\", 1, 2)"),
+                ] {
+                    case(sh, "char-sweep", &text, b);
+                }
+            }
+        }
     }
     // size ladders across the 8- and 16-bit limits
     let kmax = if tier == Tier::Quick { 17 } else { 18 };
